@@ -135,6 +135,17 @@ class Partial(AbstractBijection):
     idxs: int | slice | Array | tuple
     shape: tuple[int, ...]
 
+    def __post_init__(self):
+        # Boolean array indices must be concrete when indexing (e.g. under jit), so we
+        # convert to the equivalent integer array indices on construction.
+        if isinstance(self.idxs, Array | np.ndarray) and self.idxs.dtype == bool:
+            if self.idxs.shape != self.shape[: self.idxs.ndim]:
+                raise ValueError(
+                    f"Boolean idxs with shape {self.idxs.shape} is incompatible with "
+                    f"the bijection shape {self.shape}."
+                )
+            self.idxs = jnp.nonzero(self.idxs)
+
     def __check_init__(self):
         expected_shape = jnp.zeros(self.shape)[self.idxs].shape
         if expected_shape != self.bijection.shape:
